@@ -72,6 +72,17 @@ type exEmbedded struct {
 	Own string
 }
 
+// exEmbPtr embeds a pointer: its promoted fields and methods are behind a pointer that may be nil
+type exEmbPtr struct {
+	*exStruct
+	Y int
+}
+
+type exFuncField struct {
+	F func() int
+	G func(int) int
+}
+
 func exoticCtx() pongo2.Context {
 	st := exStruct{A: "a<b", B: 7, C: []int{1, 2, 3}, D: map[string]int{"x": 1}, F: 3.5, G: func(i int) int { return i + 1 }, T: time.Date(2020, 2, 29, 12, 30, 0, 0, time.UTC)}
 	st2 := st
@@ -110,18 +121,23 @@ func exoticCtx() pongo2.Context {
 		"fnst": func(s exStruct) string { return s.A }, "fnl": func(l []int) int { return len(l) }, "fnm": func(m map[string]int) int { return len(m) },
 		"fntm": func(t *time.Time) bool { return t == nil }, "fnstr": func(s fmt.Stringer) bool { return s == nil }, "fnerrarg": func(e error) bool { return e == nil },
 		"fnpp": func(p **exStruct, q *[3]int) bool { return p == nil && q == nil },
+		// nil in unusual places: behind an embedded pointer, as a function value, as a *Value result
+		"embnil": exEmbPtr{Y: 1}, "pembnil": &exEmbPtr{Y: 2}, "embok": exEmbPtr{exStruct: &st, Y: 3},
+		"nilfn": (func() int)(nil), "nilfn1": (func(int) int)(nil), "ffield": exFuncField{}, "fnnilval": func() *pongo2.Value { return nil },
+		"fnpanic": func() string { panic("user function panics") },
 	}
 }
 
 var exNames = []string{"s", "e", "bad", "uni", "num", "fl", "i", "z", "neg", "i8", "i64min", "i64max", "u", "u8", "u64max", "f", "nan", "inf", "ninf", "negz", "big", "tiny", "f32",
 	"t", "ff", "n", "l", "le", "ls", "la", "lnil", "by", "arr", "parr", "arr0", "m", "im", "fm", "bm", "am", "mnil", "mm", "st", "pst", "ppst", "nilst", "niliface", "emb",
 	"sv", "si", "tm", "ptm", "niltm", "dur", "fn0", "fn1", "fnv", "fnval", "fnerr", "fnctx", "fn2", "fnany", "fnnil", "fn3out", "fn0out", "fnsafe", "fnbad2", "val", "sval", "err", "undefined",
-	"fnp", "fnst", "fnl", "fnm", "fntm", "fnstr", "fnerrarg", "fnpp"}
+	"fnp", "fnst", "fnl", "fnm", "fntm", "fnstr", "fnerrarg", "fnpp",
+	"embnil", "pembnil", "embok", "nilfn", "nilfn1", "ffield", "fnnilval"}
 
 // functions whose parameters are of pointer / struct / container / interface type: called with every value of the universe
 var exTypedFuncs = []string{"fnp", "fnst", "fnl", "fnm", "fntm", "fnstr", "fnerrarg", "fnpp", "fnany", "fnval"}
 
-var exSteps = []string{"A", "B", "C", "D", "E", "F", "G", "T", "hidden", "Own", "Hello", "Add", "PtrMethod", "Fails", "Var", "WithCtx", "Val", "String", "Year", "Unix", "Seconds",
+var exSteps = []string{"Y", "A", "B", "C", "D", "E", "F", "G", "T", "hidden", "Own", "Hello", "Add", "PtrMethod", "Fails", "Var", "WithCtx", "Val", "String", "Year", "Unix", "Seconds",
 	"k", "a", "x", "b", "key", "0", "1", "2", "99", "Len", "Missing", "exStruct", "Error"}
 
 // --- generators ----------------------------------------------------------------
@@ -524,6 +540,21 @@ func c01Run(c c01Case, limit time.Duration) (class, msg string) {
 			tpl, err = set.FromString(c.Src)
 		}
 		if err != nil {
+			// the shortcuts that compile and render in one call report the same error, they do not panic
+			if c.FromFile {
+				_, err2 := set.RenderTemplateFile(c.Src, nil)
+				if err2 == nil {
+					r = res{"panic", "RenderTemplateFile succeeded where FromFile failed"}
+					return
+				}
+			} else {
+				_, err2 := set.RenderTemplateString(c.Src, nil)
+				_, err3 := set.RenderTemplateBytes([]byte(c.Src), nil)
+				if err2 == nil || err3 == nil {
+					r = res{"panic", "RenderTemplateString/Bytes succeeded where FromString failed"}
+					return
+				}
+			}
 			r = res{"compile", err.Error()}
 			return
 		}
